@@ -24,6 +24,7 @@ type LabOpts struct {
 	Outcomes  bool // provoke failed/updated outcomes (C20)
 	Parallel  bool
 	TornTail  bool // some addressed files end in an unterminated (half written) stale entry
+	Bench     bool // some cases are benchmark programs (go test -bench, handles of type *testing.B)
 }
 
 type Lab struct {
@@ -71,6 +72,7 @@ type LabCase struct {
 	SkipAt    map[string]int
 	SkipExec  map[string]int
 	SkipAfter map[string]bool // test -> its skip wrapper is called after its sub-tests were started
+	Bench     bool            // the nodes are benchmarks: every process of the case runs with BenchFlags
 	Flags     []string        // extra runner flags of the judged process (-test.cpu=1,2 / -test.shuffle=on / -test.parallel=1)
 	Classes   vkit.Classes
 	// judged-run mutations (C20): test -> call index -> changed value / Update option
@@ -140,6 +142,23 @@ func (l *Lab) Gen(r *rand.Rand, o LabOpts) *LabCase {
 		}
 		for _, f := range pk.Files {
 			tops = append(tops, f.Tests...)
+		}
+	}
+	if o.Bench && r.IntN(6) == 0 {
+		// a benchmark program: the handles are *testing.B, the functions are selected by
+		// -bench (each runs once: -benchtime=1x), -run selects no test or is not given
+		var bs []string
+		for _, pk := range l.P.Shape.Pkgs {
+			if pk.Dir == l.PkgDir {
+				for _, f := range pk.Files {
+					bs = append(bs, f.Bench...)
+				}
+			}
+		}
+		if len(bs) >= 2 {
+			tops = bs
+			lc.Bench = true
+			lc.Classes["benchmark-handles"] = true
 		}
 	}
 	r.Shuffle(len(tops), func(i, j int) { tops[i], tops[j] = tops[j], tops[i] })
@@ -292,9 +311,13 @@ func (l *Lab) Gen(r *rand.Rand, o LabOpts) *LabCase {
 			lc.Classes["parent-skips-after-its-subtests"] = true
 		}
 	}
-	if o.RunFilter && r.IntN(2) == 0 {
+	if o.RunFilter && r.IntN(2) == 0 && !lc.Bench {
 		lc.Run = l.runPattern(r, names)
 		lc.Classes["run-filter"] = true
+	}
+	if lc.Bench && r.IntN(3) != 0 {
+		lc.Run = "^$" // the usual `go test -run '^$' -bench .`
+		lc.Classes["benchmarks-with-run-selecting-no-test"] = true
 	}
 	if o.Counts {
 		lc.Count = []int{1, 1, 2, 3, 5}[r.IntN(5)]
@@ -315,7 +338,7 @@ func (l *Lab) Gen(r *rand.Rand, o LabOpts) *LabCase {
 			}
 		}
 	}
-	if o.Counts {
+	if o.Counts && !lc.Bench {
 		switch r.IntN(8) {
 		case 0:
 			lc.Flags = []string{"-test.cpu=1,2"} // every test is executed once per listed GOMAXPROCS value
@@ -377,6 +400,17 @@ func (l *Lab) runPattern(r *rand.Rand, names []string) string {
 }
 
 // withSkips returns a copy of the scenario with the skip set applied.
+// BenchFlags are the runner flags every process of a benchmark case gets.
+var BenchFlags = []string{"-test.bench=.", "-test.benchtime=1x"}
+
+// RunnerFlags: the extra flags of the judged process.
+func (lc *LabCase) RunnerFlags() []string {
+	if lc.Bench {
+		return append(append([]string(nil), BenchFlags...), lc.Flags...)
+	}
+	return lc.Flags
+}
+
 func (lc *LabCase) withSkips() *Scenario {
 	s := *lc.Scenario
 	s.Nodes = map[string]*Node{}
